@@ -28,12 +28,14 @@ def oracle_comps(g):
 def choose_supply(rng, cfg):
     """which managed features the caller's graph already carries, and how"""
     if cfg.get("zero_ids"):
-        return {"track": "shift0", "lineage": "shift0", "pos": False, "area": False}
+        return {"track": "shift0", "lineage": "shift0", "pos": False, "area": False, "dict": False}
     mode = lambda: rng.choice([None, None, None, "spread", "shift0", "stale-not-on-first"])
     s = {"track": mode(), "lineage": mode(), "pos": False, "area": False}
     if cfg["seg"]:
         s["pos"] = rng.random() < 0.2
         s["area"] = rng.random() < 0.2
+    # a prepared FeatureDict (features=...): everything registered is on the graph already (a reloaded solution)
+    s["dict"] = rng.random() < 0.15
     return s
 
 
@@ -60,7 +62,22 @@ def supply(cfg, g, ref, sup):
     return g2
 
 
-def raw_lines(E, cfg, g2, seg, pos_keys):
+def supply_all(cfg, g, ref, sup):
+    """the graph of a reloaded solution: every registered feature of ref is on every node, ids possibly renumbered"""
+    g2 = g.copy()
+    for n in g2.nodes:
+        for k, v in ref.graph.nodes[n].items():
+            g2.nodes[n][k] = v
+        for key, attr in (("track", "track_id"), ("lineage", "lineage_id")):
+            i = int(ref.graph.nodes[n][attr])
+            g2.nodes[n][attr] = i - 1 if sup[key] == "shift0" else (3 * i + 2 if sup[key] == "spread" else i)
+    for u, v in g2.edges:
+        for k, val in ref.graph.edges[u, v].items():
+            g2.edges[u, v][k] = val
+    return g2
+
+
+def raw_lines(E, cfg, g2, seg, pos_keys, fdict=None):
     """S / F / SEG / N / E / M lines of the raw solution (E = the editmachine module, for its token helpers)"""
     KEY = E.KEY
     j = lambda l: ",".join(map(str, l)) if l else "-"
@@ -68,7 +85,11 @@ def raw_lines(E, cfg, g2, seg, pos_keys):
     posk = [KEY[k] for k in pos_keys]
     regn = [KTIME] if with_seg else [KTIME] + posk
     rpall = [KEY[k] for k in E.RP_KEYS] if with_seg else []
-    L = ["S", "F %s - %s %s - %d 0 0 0" % (j(regn), j([KPOS] if with_seg else posk), j(rpall), int(with_seg))]
+    rege = []
+    if fdict is not None:     # the caller's registry
+        regn = [KEY[k] for k in fdict.node_features]
+        rege = [KEY[k] for k in fdict.edge_features]
+    L = ["S", "F %s %s %s %s - %d 0 0 0" % (j(regn), j(rege), j([KPOS] if with_seg else posk), j(rpall), int(with_seg))]
     if with_seg:
         sg = np.asarray(seg)
         L.append("SEG " + ";".join(",".join(str(int(x)) for x in fr.reshape(-1)) for fr in sg))
@@ -89,6 +110,9 @@ def raw_lines(E, cfg, g2, seg, pos_keys):
         toks = ["%d=t%d" % (KEY[k], int(val)) for k, val in g2.edges[u, v].items() if val is not None]
         L.append(("E %d %d %s" % (u, v, " ".join(toks))).rstrip())
     L.append("M 0 0 1")
+    if fdict is not None:
+        L.append("CD")
+        return L
     ctrk, clin = oracle_comps(g2)
     L.append("C %s %s" % (E.comps_txt(ctrk), E.comps_txt(clin)))
     return L
